@@ -33,15 +33,18 @@ TInit == /\ TLCSet(1, 0)
          /\ ev = FALSE /\ cur = 0 /\ T = <<>> /\ h = <<>> /\ col = 1 /\ prevS = {}
          /\ l = 1 /\ rc = <<>> /\ hs = <<>> /\ nexec = 0 /\ nrows = 0
 
+\* (a state-level definition: TLC would otherwise expand the quantifiers as action conjuncts,
+\* recursing once per column)
+WellFormed(cl) == /\ \A j \in 1..Len(cl) : cl[j] \in {"le0", "mid", "ge1"}
+                  /\ Sorted(cl)
 TCfg == /\ Is("Cfg")
-        /\ \A j \in 1..Len(Ev.classes) : Ev.classes[j] \in {"le0", "mid", "ge1"}
-        /\ Sorted(Ev.classes)
+        /\ WellFormed(Ev.classes) = TRUE
         /\ rc' = Ev.classes /\ hs' = <<>>
         /\ nexec' = nexec + 1 /\ UNCHANGED nrows
 
 \* hs: trace id number -> the hash that explained its first row; later rows must have the same
 TRow == /\ Is("Row")
-        /\ RowExplained(rc, Ev.d)
+        /\ RowExplained(rc, Ev.d) = TRUE
         /\ IF Ev.id \in DOMAIN hs
              THEN hs[Ev.id] = FirstSampled(Ev.d) /\ UNCHANGED hs
              ELSE hs' = hs @@ (Ev.id :> FirstSampled(Ev.d))
